@@ -283,6 +283,48 @@ void mux_tailpages(const pktlist_t *pk, int serial, uint64_t seed, buf_t *out){
     pg++;
   }
 }
+/* a link whose audio data BEGINS with continuation pages: one page per header group, `first` (possibly 0) ordinary one-packet pages, then the first page of the first
+   packet of >= 511 bytes is left out, so that the data continues with a page holding only 255-byte segments of it (continued, no granule position) and a page holding only its tail (continued,
+   granule position set); one packet per page afterwards.  Returns 0 if no packet was large enough (nothing written then). */
+int mux_headless_tail(const pktlist_t *pk, int serial, int first, buf_t *out){
+  long pageno=0; static __thread unsigned char body[70000]; unsigned char lace[256]; int nl; long bl;
+  int i=-1; for(int j=3;j<pk->n-1 && j<43;j++) if(pk->v[j].bytes>=511){ i=j; break; }   /* earlier (smaller) packets are simply absent, except `first` of them */
+  if(i<0 || pk->v[0].bytes>60000 || pk->v[1].bytes+pk->v[2].bytes>60000) return 0;
+  if(first>i-3) first=i-3;
+  for(int j=3;j<pk->n;j++) if(pk->v[j].bytes>60000) return 0;
+  nl=0;bl=0; lace_add(lace,&nl,body,&bl,pk->v[0].data,pk->v[0].bytes,1); raw_page(out,serial,&pageno,2,0,lace,nl,body,bl);
+  nl=0;bl=0; lace_add(lace,&nl,body,&bl,pk->v[1].data,pk->v[1].bytes,1); lace_add(lace,&nl,body,&bl,pk->v[2].data,pk->v[2].bytes,1); raw_page(out,serial,&pageno,0,0,lace,nl,body,bl);
+  for(int j=i-first;j<i;j++){ nl=0;bl=0; lace_add(lace,&nl,body,&bl,pk->v[j].data,pk->v[j].bytes,1); raw_page(out,serial,&pageno,0,pk->v[j].granulepos,lace,nl,body,bl); }
+  pageno++;   /* the page that held the first 255 bytes is missing */
+  nl=0;bl=0; lace_add(lace,&nl,body,&bl,pk->v[i].data+255,255,0); raw_page(out,serial,&pageno,1,-1,lace,nl,body,bl);
+  nl=0;bl=0; lace_add(lace,&nl,body,&bl,pk->v[i].data+510,pk->v[i].bytes-510,1); raw_page(out,serial,&pageno,1,pk->v[i].granulepos,lace,nl,body,bl);
+  for(int j=i+1;j<pk->n;j++){ nl=0;bl=0; lace_add(lace,&nl,body,&bl,pk->v[j].data,pk->v[j].bytes,1); raw_page(out,serial,&pageno,j==pk->n-1?4:0,pk->v[j].granulepos,lace,nl,body,bl); }
+  return 1;
+}
+/* Multiplex a foreign (non-Vorbis) logical stream into one muxed link: its BOS page directly after the Vorbis BOS page (all BOS pages come first), its data pages
+   scattered between the Vorbis pages, and its last pages - with EOS - before (where=0) or AFTER (where=1) the Vorbis EOS page.  Valid Ogg; vorbisfile is documented to
+   ignore streams it does not decode. */
+void mux_add_foreign(const buf_t *link, int fserial, uint64_t seed, int where, buf_t *out){
+  rng_t r; rng_seed(&r,seed,0xf0e1,(uint64_t)fserial); pageinfo_t *pg=NULL; int np=page_scan(link->p,link->n,&pg);
+  { int audio=0; for(int i=0;i<np;i++) if(pg[i].granule!=0) audio++; if(audio<2) where=1; }   /* no foreign page between the headers and the first audio page (see DESIGN section 13) */
+  ogg_stream_state fs; ogg_page fo; ogg_packet fp; unsigned char body[600]; ogg_stream_init(&fs,fserial); ogg_int64_t fg=0; long pno=0;
+  memset(&fp,0,sizeof fp); memset(body,0,sizeof body); memcpy(body,"\x80theora",7); fp.packet=body; fp.bytes=42; fp.b_o_s=1; fp.packetno=pno++; ogg_stream_packetin(&fs,&fp);
+  for(int i=0;i<np;i++){
+    int last=(i==np-1);
+    if(last && where==0){ /* foreign EOS before the Vorbis EOS page */
+      memset(&fp,0,sizeof fp); for(int k=0;k<50;k++) body[k]=(unsigned char)rng_next(&r); fp.packet=body; fp.bytes=50; fp.e_o_s=1; fp.granulepos=++fg; fp.packetno=pno++; ogg_stream_packetin(&fs,&fp);
+      while(ogg_stream_flush(&fs,&fo)){ buf_add(out,fo.header,fo.header_len); buf_add(out,fo.body,fo.body_len); } }
+    buf_add(out,link->p+pg[i].off,pg[i].len);
+    if(i==0){ while(ogg_stream_flush(&fs,&fo)){ buf_add(out,fo.header,fo.header_len); buf_add(out,fo.body,fo.body_len); } }
+    else if(!last && pg[i].granule!=0 && rng_chance(&r,0.4)){ int k=(int)rng_range(&r,1,3);
+      for(int q=0;q<k;q++){ memset(&fp,0,sizeof fp); int L=(int)rng_range(&r,1,500); for(int z=0;z<L;z++) body[z]=(unsigned char)rng_next(&r); fp.packet=body; fp.bytes=L; fp.granulepos=++fg; fp.packetno=pno++; ogg_stream_packetin(&fs,&fp); }
+      while(ogg_stream_flush(&fs,&fo)){ buf_add(out,fo.header,fo.header_len); buf_add(out,fo.body,fo.body_len); } }
+  }
+  if(where==1){ int k=(int)rng_range(&r,1,3);
+    for(int q=0;q<k;q++){ memset(&fp,0,sizeof fp); int L=(int)rng_range(&r,1,500); for(int z=0;z<L;z++) body[z]=(unsigned char)rng_next(&r); fp.packet=body; fp.bytes=L; fp.granulepos=++fg; fp.e_o_s=(q==k-1); fp.packetno=pno++; ogg_stream_packetin(&fs,&fp);
+      while(ogg_stream_flush(&fs,&fo)){ buf_add(out,fo.header,fo.header_len); buf_add(out,fo.body,fo.body_len); } } }
+  ogg_stream_clear(&fs); free(pg);
+}
 int page_scan(const unsigned char *d, size_t n, pageinfo_t **out){
   ogg_sync_state oy; ogg_page og; int cnt=0, cap=64; pageinfo_t *v=malloc(sizeof(*v)*cap);
   long base=0; size_t fed=0;
@@ -350,7 +392,8 @@ void gen_chain(rng_t *r, int maxlinks, long maxN, int flags, chaindesc_t *d){
       c->channels= rng_chance(r,0.15)?255:(int)rng_range(r,12,64); c->rate=44100; c->mode=ENC_VBR; c->quality=1.0f;
       c->sig= rng_chance(r,0.5)?SIG_ALT:SIG_NOISE; c->nsamples=rng_range(r,1500,c->channels>100?2600:7000); c->chunk=CHUNK_1024;
     }
-    { uint64_t gh=hash64(d->muxseed*131+(uint64_t)i*977+5); d->goffset[i]= (flags&GC_GOFFSET) && (gh%100)<18 ? (long)(1+(gh>>8)%((gh>>40)%3==0?5000000:90000)) : 0; }
+    { uint64_t gh=hash64(d->muxseed*131+(uint64_t)i*977+5); d->goffset[i]= (flags&GC_GOFFSET) && (gh%100)<18 ? (long)(1+(gh>>8)%((gh>>40)%3==0?5000000:90000)) : 0;
+      if((flags&GC_BEGINTRIM) && (gh%100)>=18 && (gh%100)<58) d->goffset[i]=-(long)(1+(gh>>8)%4000); }   /* negative: begin-trimmed link, see vh_mux_link */
     for(int j=0;j<i;j++) if(d->serial[j]==d->serial[i]){ d->serial[i]=(int)(hash64(d->serial[i]+i*7919)&0x7fffffff); j=-1; }
     int ps=(int)rng_below(r,100);
     d->policy[i]= ps<35?PAGE_DEFAULT: ps<55?PAGE_FLUSH_EACH: ps<85?PAGE_FILL:PAGE_RANDOM;
@@ -361,6 +404,17 @@ void gen_chain(rng_t *r, int maxlinks, long maxN, int flags, chaindesc_t *d){
 /* muxes link i; a granule offset is dropped again when all the audio lands on one page: for a page that is both the first and
    the last of a link, "starts above zero" and "last packet trimmed" cannot be told apart (one granule position, two unknowns) */
 void vh_mux_link(const pktlist_t *pk, chaindesc_t *d, int i, buf_t *out){
+  if(d->goffset[i]<0){
+    /* a BEGIN-TRIMMED link (what a stream cutter leaves): every granule position lowered by t, so that the first audio page claims fewer samples than its packets
+       decode to and the decoder drops the first t samples.  t stays below the first audio page's granule position; the link then simply has N-t samples starting at
+       position 0 (vorbisfile clamps the initial offset at 0), which is what the descriptor says afterwards. */
+    buf_t t0; buf_init(&t0); mux_stream_off(pk,d->serial[i],d->policy[i],d->fill[i],d->muxseed+i,0,&t0);
+    pageinfo_t *pg=NULL; int np=page_scan(t0.p,t0.n,&pg); int audio=0; long g1=0; for(int k=0;k<np;k++) if(pg[k].granule>0){ if(!audio) g1=(long)pg[k].granule; audio++; }
+    free(pg); buf_free(&t0);
+    long t=-d->goffset[i]; if(g1>1) t=1+t%(g1-1); else t=0;
+    d->goffset[i]=0;
+    if(audio>=2 && t>0 && d->cfg[i].nsamples>t){ mux_stream_off(pk,d->serial[i],d->policy[i],d->fill[i],d->muxseed+i,-t,out); d->cfg[i].nsamples-=t; return; }
+  }
   if(d->goffset[i]){
     buf_t t; buf_init(&t); mux_stream_off(pk,d->serial[i],d->policy[i],d->fill[i],d->muxseed+i,d->goffset[i],&t);
     pageinfo_t *pg=NULL; int np=page_scan(t.p,t.n,&pg); int audio=0; for(int k=0;k<np;k++) if(pg[k].granule>0) audio++;
@@ -431,13 +485,13 @@ static size_t ms_read(void *ptr, size_t size, size_t nmemb, void *ds){
   if(size>1) want-=want%size;
   if(want) memcpy(ptr,m->data+m->pos,want);
   m->pos+=want; m->bytes_served+=want;
-  errno=0;
+  /* errno is left alone, as fread leaves it: the library has to clear it itself before it draws conclusions from it */
   return size?want/size:0;
 }
 static int ms_seek(void *ds, ogg_int64_t off, int whence){
   memsrc_t *m=ds; long idx=m->n_seek++; ms_tick(m);
   if(m->seekmode==2) return -1;
-  if(ms_fault_hit(m,1,idx)) return -1;
+  if(ms_fault_hit(m,1,idx)){ errno=EIO; return -1; }   /* as fseek does: -1 with errno set */
   int64_t np;
   if(whence==SEEK_SET) np=off; else if(whence==SEEK_CUR) np=m->pos+off; else np=m->len+off;
   if(np<0) return -1;
@@ -446,7 +500,7 @@ static int ms_seek(void *ds, ogg_int64_t off, int whence){
 static int ms_close(void *ds){ memsrc_t *m=ds; m->n_close++; return 0; }
 static long ms_tell(void *ds){
   memsrc_t *m=ds; long idx=m->n_tell++; ms_tick(m);
-  if(ms_fault_hit(m,2,idx)) return -1;
+  if(ms_fault_hit(m,2,idx)){ errno=ESPIPE; return -1; }   /* as ftell does */
   return (long)m->pos;
 }
 ov_callbacks memsrc_cb(const memsrc_t *m){
